@@ -123,6 +123,10 @@ pub struct Env {
     /// Token spans for mapped kinds (gapped, uneven), plus the end-of-input span.
     pub mspans: Vec<(usize, usize)>,
     pub eoi: (usize, usize),
+    /// Character kinds run on the ASCII text of the byte alphabet and are compared with the `&[u8]`
+    /// reference of a byte case (same text as `&str` and as `&[u8]`).
+    #[serde(default)]
+    pub ascii_chars: bool,
 }
 
 #[derive(Clone, Debug, Default)]
@@ -168,6 +172,14 @@ pub fn run_kind(g: &G, syms: &[u8], kind: Kind, mode: PMode, env: &Env, budget: 
         }};
     }
 
+    struct AsciiGuard;
+    impl Drop for AsciiGuard {
+        fn drop(&mut self) {
+            crate::tok::set_ascii_chars(false);
+        }
+    }
+    let _ascii = AsciiGuard;
+    crate::tok::set_ascii_chars(env.ascii_chars && kind.is_char());
     let outcome = if !kind.is_char() {
         let toks: Vec<u8> = syms.iter().map(|s| u8::from_sym(*s)).collect();
         let rc = Rc::new(toks.clone());
@@ -281,6 +293,14 @@ pub fn run_kind(g: &G, syms: &[u8], kind: Kind, mode: PMode, env: &Env, budget: 
 
 /// The documented re-basing of a reference index span [i, j) for each kind.
 pub fn rebase(ref_kind: Kind, kind: Kind, syms: &[u8], env: &Env) -> Box<dyn Fn(Sp) -> Sp> {
+    if env.ascii_chars && kind.is_char() {
+        // same ASCII text as the byte reference: byte offsets are indices
+        return match kind {
+            Kind::CtxStr => Box::new(|s: Sp| Sp(CTX, s.1, s.2)),
+            Kind::MapSpanStr => Box::new(|s: Sp| Sp(MS_CTX, s.1 * MS_MUL + MS_ADD, s.2 * MS_MUL + MS_ADD)),
+            _ => Box::new(|s| s),
+        };
+    }
     if ref_kind == Kind::Str {
         // the reference already speaks byte offsets: only the wrappers re-base
         return match kind {
@@ -680,7 +700,11 @@ impl SrcSim {
         let need = gram::needs_caps(g);
         let ref_kind = Kind::reference_for(&need, is_char);
         let (mspans, eoi) = gen_mspans(rng, syms.len());
-        let base_env = Env { policy: ReaderPolicy::full(), reader_seed: 0, trace: None, hint: Hint::Exact, mspans, eoi };
+        let base_env = Env { policy: ReaderPolicy::full(), reader_seed: 0, trace: None, hint: Hint::Exact, mspans, eoi, ascii_chars: false };
+        // byte cases: every third also feeds the same ASCII text through the character kinds (text
+        // parsers always). Not with Text(7): `newline()` does not exist for byte inputs, the builder
+        // substitutes another parser there.
+        let ascii_x = !is_char && !long && !gram::contains(g, &|x| matches!(x, G::Text(7))) && (need.strin || rng.chance(1, 3));
         let needs_value = gram::needs_value_input(g);
         for mode in [PMode::Parse, PMode::Check] {
             // reference: the single copy
@@ -707,13 +731,17 @@ impl SrcSim {
                 }
             }
             let hot = hot_offsets(&reference, syms.len());
-            let kinds: Vec<Kind> = if is_char {
+            let mut kinds: Vec<Kind> = if is_char {
                 CHAR_KINDS.to_vec()
             } else if long {
                 LONG_KINDS.to_vec()
             } else {
                 U8_KINDS.to_vec()
             };
+            if ascii_x {
+                kinds.push(Kind::CharSlice);
+                kinds.extend_from_slice(CHAR_KINDS);
+            }
             let mut mapped_obs: Vec<(Kind, Outcome, Env)> = Vec::new();
             for kind in kinds {
                 if kind == Kind::Array && !matches!(syms.len(), 1 | 3 | 6) {
@@ -729,6 +757,7 @@ impl SrcSim {
                 let n_legal = if kind.uses_reader() { 2 } else { 1 };
                 for rep in 0..n_legal {
                     let mut env = base_env.clone();
+                    env.ascii_chars = ascii_x && kind.is_char();
                     env.hint = Hint::gen(rng);
                     env.reader_seed = rng.next_u64();
                     env.policy = if rep == 0 && long { ReaderPolicy::full() } else { ReaderPolicy::legal(rng, syms.len(), &hot) };
@@ -760,7 +789,7 @@ impl SrcSim {
                     if gram::contains(g, &|x| matches!(x, G::Padded(_))) {
                         acc.inc("replica_runs.with_padded(skip_while)");
                     }
-                    acc.inc(&format!("replica_runs.{:?}", kind));
+                    acc.inc(&format!("replica_runs.{:?}{}", kind, if env.ascii_chars { "(ascii text vs &[u8] reference)" } else { "" }));
                     record_source_stats(acc, kind, &run.stats, true);
                     // O3 monitors
                     let mut monitor = None;
@@ -980,7 +1009,7 @@ impl Engine for SrcSim {
             cfg.allow_regex = cfg.allow_text && rng.chance(1, 2);
             cfg.allow_pad = cfg.allow_text || rng.chance(1, 8);
             if cfg.allow_text || cfg.allow_pad {
-                cfg.nsym = 16;
+                cfg.nsym = crate::tok::NSYM_TEXT;
             }
         }
         let g = gram::generate(&mut rng, &cfg);
@@ -1012,9 +1041,9 @@ impl Engine for SrcSim {
 
 /// Re-execute a replay document: returns Some(class) if it still fails (same class family).
 pub fn replay(rp: &Replay) -> Option<(String, Outcome, Outcome)> {
-    let is_char = rp.kind.is_char();
+    let is_char = rp.kind.is_char() && !rp.env.ascii_chars;
     let ref_kind = Kind::reference_for(&gram::needs_caps(&rp.grammar), is_char);
-    let base_env = Env { policy: ReaderPolicy::full(), reader_seed: 0, trace: None, hint: Hint::Exact, mspans: rp.env.mspans.clone(), eoi: rp.env.eoi };
+    let base_env = Env { policy: ReaderPolicy::full(), reader_seed: 0, trace: None, hint: Hint::Exact, mspans: rp.env.mspans.clone(), eoi: rp.env.eoi, ascii_chars: false };
     if let Some(k0) = rp.against {
         let a = run_kind(&rp.grammar, &rp.syms, k0, rp.mode, &rp.env, (REF_TICK_CAP * 16, u64::MAX, u64::MAX));
         let b = run_kind(&rp.grammar, &rp.syms, rp.kind, rp.mode, &rp.env, (REF_TICK_CAP * 16, u64::MAX, u64::MAX));
